@@ -74,12 +74,23 @@ class TlcResult:
         self.action_prop_violated = re.findall(r"Action property (\S+) is violated", out)
 
     def printed(self, tag: str) -> list:
-        """All <<"tag", "json">> lines (emitted by PrintT(<<tag, ToJson(v)>>))."""
+        """All <<"tag", "json">> values emitted by PrintT(<<tag, ToJson(v)>>); long values are pretty-printed by
+        TLC over two lines (<< "tag",\n   "json" >>)."""
         res = []
-        for line in self.out.splitlines():
-            m = _RE_PRINT.match(line.strip())
+        lines = self.out.splitlines()
+        i = 0
+        head = '<< "%s",' % tag
+        while i < len(lines):
+            line = lines[i].strip()
+            m = _RE_PRINT.match(line)
             if m and m.group(1) == tag:
                 res.append(json.loads(json.loads('"' + m.group(2) + '"')))
+            elif line == head and i + 1 < len(lines):
+                nxt = lines[i + 1].strip()
+                if nxt.startswith('"') and nxt.endswith('" >>'):
+                    res.append(json.loads(json.loads(nxt[: -3].rstrip())))
+                    i += 1
+            i += 1
         return res
 
     def coverage_counts(self) -> dict:
